@@ -8,8 +8,12 @@ mod verif_witness_c20 {
     struct Rng(u64);
     impl Rng { fn next(&mut self) -> u64 { self.0 ^= self.0 << 13; self.0 ^= self.0 >> 7; self.0 ^= self.0 << 17; self.0 } fn below(&mut self, n: usize) -> usize { (self.next() % n as u64) as usize } }
 
-    /// codegen/router.rs: `a.host().trim_end_matches('.').replace('.', "/").chars().rev().collect()`
-    fn normalise(host: &str) -> String { host.trim_end_matches('.').replace('.', "/").chars().rev().collect() }
+    /// the host normalisation of the GENERATED router: the method chain below is cut out of the quote! template in
+    /// compiler/codegen/router.rs on every run (runner `splice`: the text between `.map(|a| a.host()` and the closing `);`, comment
+    /// lines dropped) — it is the text the generated server will run, not a copy of it
+    struct Authority<'a>(&'a str);
+    impl<'a> Authority<'a> { fn host(&self) -> &'a str { self.0 } }
+    fn normalise(host: &str) -> String { let a = Authority(host); a.host()/*VERIF-SPLICE host_normalisation*/ }
 
     #[derive(Clone, Debug)]
     enum Label { Lit(String), Param { suffix: String }, CatchAll }
